@@ -45,6 +45,13 @@ def falsy_supplier(x, y):
     return _MeanLevel(float(np.mean(y)))
 
 
+def const_supplier(x, y):
+    """a sampling function that ignores where it is asked (the mean level as a plain Python float): called point by point
+    it fills the series, called once on a whole array it would return one number"""
+    level = float(np.mean(y))
+    return lambda t: level
+
+
 def poly1d_supplier(x, y):
     return np.poly1d(np.polyfit(x, y, 0))
 
@@ -118,7 +125,7 @@ def gen_case(rng, strategies=ALL, max_m=20, max_n=24, integer_ok=True):
     c = {"strategy": s, "n": n, "x": [str(v) for v in x], "y": [str(v) for v in y], "int_x": integer,
          # how the user's sampling function reaches the strategy: the supplier argument, or the documented alternative -
          # overriding _get_sampling_function() - in the class used, in a class between it and FunctionRFA, on the instance
-         "supplier": rng.choice(["poly", "poly", "falsy", "poly1d0", "override", "override2", "instance"]),
+         "supplier": rng.choice(["poly", "poly", "falsy", "poly1d0", "const", "override", "override2", "instance"]),
          "objhist": rng.choice(["same", "same", "same", "scribble", "refill", "reenter", "sibling", "clone"]),
          "call": rng.choice(["keyword", "keyword", "positional"]), "argrep": S.pick_argrep(rng, 0.7)}
     if not integer and rng.random() < 0.12:
@@ -168,7 +175,7 @@ def kwargs_of(c):
         if "smooth" in c:
             kw["adaptive_smooth"] = c["smooth"]
     if c["strategy"] == "function" and c.get("supplier") not in ("override", "override2", "instance"):
-        kw["sampling_function_supplier"] = {"falsy": falsy_supplier, "poly1d0": poly1d_supplier}.get(c.get("supplier"), poly_supplier)
+        kw["sampling_function_supplier"] = {"falsy": falsy_supplier, "poly1d0": poly1d_supplier, "const": const_supplier}.get(c.get("supplier"), poly_supplier)
     return kw
 
 
